@@ -32,6 +32,8 @@ pub struct Universe {
     pub solvs: BTreeMap<u32, Solv>,
     pub vsets: BTreeMap<u32, VSet>,
     pub unions: BTreeMap<u32, Vec<u32>>,
+    /// `filter_candidates` returns what it keeps in reverse input order (the trait promises no order)
+    pub filter_rev: bool,
 }
 
 #[derive(Clone, Debug, Default)]
@@ -68,6 +70,7 @@ impl Universe {
         }
         for (id, v) in &self.vsets { out.push(format!("vs {id} name {} match{}", v.name, list(&v.matching))); }
         for (id, u) in &self.unions { out.push(format!("union {id} vs{}", list(u))); }
+        if self.filter_rev { out.push("filterrev 1".into()); }
         out
     }
 
@@ -113,6 +116,7 @@ impl Universe {
                 }
                 "vs" => { u.vsets.insert(t[1].parse().unwrap(), VSet { name: t[3].parse().unwrap(), matching: nums(5, &[]).0 }); }
                 "union" => { u.unions.insert(t[1].parse().unwrap(), nums(3, &[]).0); }
+                "filterrev" => { u.filter_rev = t.get(1) == Some(&"1"); }
                 _ => {}
             }
         }
